@@ -239,7 +239,7 @@ class DtdGen:
         if a.name == "xml:lang":
             return rng.choice(["en", "fr", "de-CH"])
         if fixed:
-            return rng.choice(["value", "two words", "é", "1", "x-y", ""])  # no markup characters in DTD default literals
+            return rng.choice(["value", "two words", "é", "1", "x-y", "", "q&a", "a<b & c", 'say "hi"'])  # (markup characters are written as entity references in the literal)
         return rng.choice(["value", "two words", "q&a", "é", "a<b", "1"])
 
 
